@@ -243,8 +243,24 @@ structure ScanRec where
 /-- `data["Analog"].flat` of `binary_read_msprofile`: records × k, row-major -/
 def flat {α : Type} (profile : List (List α)) : List α := profile.flatten
 
-/-- one field of `binary_read_datafile`: `msprofile[min(offsets*k + (id-1), size-1)]["Analog"]` -/
+/-- NumPy indexing with a possibly negative index -/
+def pyIndex {α : Type} (l : List α) (i : Int) : Option α :=
+  if 0 ≤ i then l[i.toNat]? else if 0 ≤ (l.length : Int) + i then l[((l.length : Int) + i).toNat]? else none
+
+/-- size of the MSProfile.bin header, which `SpectrumOffset` includes -/
+def profileHeader : Int := 68
+
+/-- one field of `binary_read_datafile` (as repaired by 0904cc9):
+`offsets = (SpectrumOffset - 68) // ByteCount`, `msprofile[min(offsets*k + (id-1), size-1)]["Analog"]` -/
 def decodeMass {α : Type} (k : Nat) (scans : List ScanRec) (profile : List (List α)) (id : Nat) :
+    List (Option α) :=
+  scans.map (fun s =>
+    pyIndex (flat profile)
+      (min ((((s.off : Int) - profileHeader) / (s.bc : Int)) * (k : Int) + ((id : Int) - 1))
+           (((profile.length * k : Nat) : Int) - 1)))
+
+/-- the mechanism before 0904cc9 (`SpectrumOffset // ByteCount`), kept for the regression witnesses -/
+def decodeMassUnrepaired {α : Type} (k : Nat) (scans : List ScanRec) (profile : List (List α)) (id : Nat) :
     List (Option α) :=
   scans.map (fun s => (flat profile)[min (s.off / s.bc * k + (id - 1)) (profile.length * k - 1)]?)
 
